@@ -62,7 +62,8 @@ def r_C01ef(root):
     names, rows = atoms.table(loop.body, feasible=None, expand=expand)
     cls = {a: _classify_atom(a) for a in names}
     unk = [a for a, c in cls.items() if c is None]
-    if unk: raise AnalysisError("_init_obj_attrs: guard outside the supported atom set: %s" % unk)
+    # a guard outside the four documented determinants is a free condition: the table must give the documented default whatever its value
+    for a in unk: cls[a] = "free:" + a
     def expected(many, base, auto, boo):
         if many: return "[]"
         if base: return "pytype()" if auto else ("False" if boo else "None")
@@ -72,7 +73,7 @@ def r_C01ef(root):
             for auto in (True, False):
                 for boo in (True, False):
                     want = {"many": many, "base": base, "auto": auto, "bool": boo}
-                    sel = [r for r in rows if all(want[cls[a]] == v for a, v in r.val.items())]
+                    sel = [r for r in rows if all(want[cls[a]] == v for a, v in r.val.items() if not cls[a].startswith("free:"))]
                     inst += 1
                     vals = set()
                     for r in sel:
@@ -91,7 +92,7 @@ def r_C01ef(root):
                     ob("C01", "C01.e", MM, "TextXMetaModel._init_obj_attrs", "many=%s base=%s auto_init=%s bool=%s -> %s" % (many, base, auto, boo, sorted(vals)), okc)
                     if not okc:
                         out.append(Finding("C01", "C01.e", MM, "TextXMetaModel._init_obj_attrs", "many=%s base_type=%s auto_init_attributes=%s bool_assignment=%s" % (many, base, auto, boo),
-                                           "attribute is initialised to %s, documented default is %s" % (sorted(vals), exp), witness="grammar with a repeated plain assignment of a base type (a=INT a=INT) and auto_init_attributes=False" if many else None))
+                                           "attribute is initialised to %s, documented default is %s%s" % (sorted(vals), exp, (" (depending on the extra condition %s)" % unk[0]) if unk else ""), witness="grammar with a repeated plain assignment of a base type (a=INT a=INT) and auto_init_attributes=False" if many else None))
     # python_type covers the base types
     lang = load(root, L); pt = find(lang, "python_type")
     d = next((n for n in ast.walk(pt) if isinstance(n, ast.Dict)), None)
@@ -121,4 +122,22 @@ def r_C01ef(root):
         ob("C01", "C01.g", M, "parse_tree_to_objgraph.process_node", ast.unparse(c), okc)
         if not has_opt: out.append(Finding("C01", "C01.g", M, "parse_tree_to_objgraph.process_node", ast.unparse(c), "regex group is used as the value although use_regexp_group is not tested"))
         elif not static_count: out.append(Finding("C01", "C01.g", M, "parse_tree_to_objgraph.process_node", ast.unparse(c), "group 1 is selected by a property of the individual match (conditions: %s); documented: iff the pattern defines exactly one group" % [u for u, p in at if p][-3:], witness="use_regexp_group=True and a regex with two groups of which only the first takes part in the match"))
+    return inst, out
+def r_C01i(root):
+    """C01.i  attribute type over repeated assignments (visit_assignment): the type recorded by the first assignment
+       (ClassCrossRef(cls_name=T)) and the type a later assignment is compared with (cls_attr.cls.cls_name != T') are the
+       same expression; a mismatch demotes the attribute to OBJECT.  (sibling agreement of writer and comparer)"""
+    out = []; inst = 0
+    fn = find_i(root, L, "TextXVisitor.visit_assignment"); fi = sem.info(fn)
+    w = [c for c in calls(fn, own=True) if callee_name(c) == "ClassCrossRef" and any(k.arg == "cls_name" for k in c.keywords)]
+    cmps = [n for n in own_nodes(fn) if isinstance(n, ast.Compare) and len(n.ops) == 1 and isinstance(n.ops[0], (ast.NotEq, ast.Eq)) and any(isinstance(x, ast.Attribute) and x.attr == "cls_name" for x in (n.left, n.comparators[0]))]
+    if not w or not cmps: raise AnalysisError("visit_assignment: type writer (ClassCrossRef) / type comparison (cls_name) not found")
+    T = " ".join(fi.text(next(k.value for k in w[0].keywords if k.arg == "cls_name"), at=w[0]).split())
+    for c in cmps:
+        inst += 1
+        other = c.comparators[0] if isinstance(c.left, ast.Attribute) and c.left.attr == "cls_name" else c.left
+        T2 = " ".join(fi.text(other, at=c).split())
+        ok = T == T2
+        ob("C01", "C01.i", L, "TextXVisitor.visit_assignment", "recorded type %s / compared type %s" % (T[:50], T2[:50]), ok)
+        if not ok: out.append(Finding("C01", "C01.i", L, "TextXVisitor.visit_assignment", " ".join(ast.unparse(c).split()), "a repeated assignment compares the recorded attribute type with %s but the first assignment recorded %s: attributes assigned twice with the same kind of value are demoted to OBJECT (default None instead of the base type's default) or differing types go unnoticed" % (T2, T), witness="Model: v='public' | v='private'; with auto_init_attributes and input matching neither"))
     return inst, out
